@@ -91,12 +91,27 @@ class C11(object):
                    "images are at least 2x2"]
 
     def prepare(self, ctx):
-        enginea.prepare_sim(ctx)
+        enginea.prepare_sim(ctx, import_imaged11=True)
         kernels.check_against_pyf()
+        from ImageD11 import sparseframe
+        import h5py
+        self.sf, self.h5py = sparseframe, h5py
 
     def gen(self, rs, ctx):
         rnd = random.Random(rs)
         g = np.random.default_rng(rnd.getrandbits(48))
+        if rnd.random() < 0.06:
+            # several frames through sparseframe.SparseScan.cplabel and sparse_connected_pixels (unchanged Python)
+            ns, nf = rnd.choice([3, 5, 8, 12]), rnd.choice([3, 4, 7, 13])
+            frames = []
+            for _ in range(rnd.randint(2, 5)):
+                kind, im = make_image(rnd, g, ns, nf)
+                if not (im > 0).any():
+                    im[rnd.randrange(ns), rnd.randrange(nf)] = 7.0
+                frames.append(im.ravel().tolist())
+            return {"entry": "SparseScan.cplabel", "ns": ns, "nf": nf, "kind": "scan", "frames": frames,
+                    "threshold": rnd.choice([0.0, 5.0, 12.0]), "countall": rnd.random() < 0.5,
+                    "cfg": enginea.draw_cfg(rnd, max_team=4), "gstyle": 0, "image": [], "cut": 0.0}
         r = rnd.random()
         if r < 0.006:
             ns, nf = rnd.choice([(260, 260), (258, 300)])  # > 16384 provisional labels at native capacity
@@ -122,11 +137,80 @@ class C11(object):
                 "gstyle": rnd.choice([0, 1])}
 
     def describe(self, desc):
+        if desc["entry"] == "SparseScan.cplabel":
+            return {k: desc[k] for k in ("entry", "ns", "nf", "threshold", "countall", "cfg")}
         d = {k: desc[k] for k in ("ns", "nf", "kind", "threshold", "cut", "cfg")}
         d["image_first_row"] = desc["image"][:desc["nf"]]
         return d
 
+    def exec_scan(self, desc, ctx):
+        import io, contextlib
+        sim = ctx.sim
+        cfg, th = desc["cfg"], desc["threshold"]
+        ns, nf = desc["ns"], desc["nf"]
+        ims = [np.array(f, np.float32).reshape(ns, nf) for f in desc["frames"]]
+        p = os.path.join(ctx.scratch, "c11_scan_%d.h5" % os.getpid())
+        if os.path.exists(p):
+            os.remove(p)
+        rows, cols, vals, nnz = [], [], [], []
+        for im in ims:
+            r, c = np.nonzero(im > 0)
+            rows.append(r.astype(np.uint16)); cols.append(c.astype(np.uint16)); vals.append(im[im > 0]); nnz.append(len(r))
+        with self.h5py.File(p, "w") as h:
+            grp = h.create_group("1.1")
+            grp.attrs["nframes"], grp.attrs["shape0"], grp.attrs["shape1"] = len(ims), ns, nf
+            grp["row"], grp["col"] = np.concatenate(rows), np.concatenate(cols)
+            grp["intensity"] = np.concatenate(vals).astype(np.float32)
+            grp["nnz"] = np.array(nnz, np.int32)
+        enginea.apply_cfg(sim, cfg, strict=0, track_conflicts=0, step_cap=50000000)
+        sim.begin_run()
+        viol = None
+        with contextlib.redirect_stdout(io.StringIO()):
+            sc = self.sf.SparseScan(p, "1.1")
+            sc.cplabel(threshold=th, countall=desc["countall"])
+            fr0 = sc.getframe(0)
+            n0 = self.sf.sparse_connected_pixels(fr0, threshold=th) if fr0 is not None else 0
+        st = sim.stats()
+        off, pos = 0, 0
+        lab_all = np.asarray(sc.labels)
+        for k, im in enumerate(ims):
+            ref, nref = scipy.ndimage.label(im > np.float32(th), S8)
+            n = nnz[k]
+            got = lab_all[pos:pos + n]
+            want = ref[im > 0]
+            if sc.nlabels[k] != nref:
+                viol = {"class": "count-differs", "key": "SparseScan.cplabel:count-differs",
+                        "detail": "frame %d of %d: %d labels, the frame has %d components" % (k, len(ims), sc.nlabels[k], nref)}
+                break
+            if ((got != 0) != (want != 0)).any() or canon(got) != canon(want):
+                viol = {"class": "partition-differs", "key": "SparseScan.cplabel:partition-differs",
+                        "detail": "frame %d of %d: labels do not induce the components of the frame" % (k, len(ims))}
+                break
+            nz = got[got != 0]
+            lo = off + 1 if desc["countall"] else 1
+            if len(nz) and (nz.min() != lo or nz.max() != lo + nref - 1):
+                viol = {"class": "labels-not-1..n", "key": "SparseScan.cplabel:labels-not-1..n",
+                        "detail": "frame %d: labels span %d..%d, expected %d..%d" % (k, nz.min(), nz.max(), lo, lo + nref - 1)}
+                break
+            if k == 0 and fr0 is not None:
+                l0 = fr0.pixels["connectedpixels"]
+                if n0 != nref or canon(l0) != canon(want):
+                    viol = {"class": "partition-differs", "key": "sparse_connected_pixels:partition-differs",
+                            "detail": "sparse_connected_pixels on frame 0 differs from the components"}
+                    break
+            pos += n
+            if desc["countall"]:
+                off += nref
+        meas = enginea.run_measures(st, cfg)
+        meas["image_kind"] = {"scan": 1}
+        meas["dset_capacity"] = {cfg.get("dset_cap", 0) or 16384: 1}
+        meas["dset_grew(realloc)"] = 1 if (meas["realloc_moved"] + meas["realloc_stay"]) > 0 else 0
+        return {"digest": enginea.sha(st["digest"], lab_all), "sig": enginea.sha(desc["frames"], th), "nontrivial": True,
+                "viol": viol, "measures": meas}
+
     def execute(self, desc, ctx):
+        if desc["entry"] == "SparseScan.cplabel":
+            return self.exec_scan(desc, ctx)
         sim = ctx.sim
         ns, nf, th, cfg = desc["ns"], desc["nf"], desc["threshold"], desc["cfg"]
         im = np.array(desc["image"], np.float32).reshape(ns, nf)
@@ -239,6 +323,8 @@ class C11(object):
 
     def minimise(self, desc, viol, ctx):
         cls = viol["class"]
+        if desc["entry"] == "SparseScan.cplabel":
+            return desc
 
         def fails(d):
             try:
